@@ -1,7 +1,11 @@
 package main
 
 import (
+	"bytes"
+	"encoding/json"
 	"fmt"
+	"io"
+	"net/http"
 	"reflect"
 	"sort"
 	"strings"
@@ -12,6 +16,7 @@ import (
 	"verif/mc/ref/refror2"
 	"verif/mc/report"
 	"verif/mc/schema"
+	"verif/mc/wire"
 )
 
 type batchReplay struct {
@@ -169,7 +174,53 @@ func splitTop(s string) []string {
 
 var assignKinds = [][]string{{"results"}, {"statuses"}, {"errors"}, {"results", "statuses"}, {"results", "errors"}, {"statuses", "errors"}, {"results", "statuses", "errors"}, {}}
 
+var lenientWorlds = map[*schema.Universe]*World{}
+
+// truncateKey drops the last field of a complex key's wire form: (k1:a,k2:0) -> (k1:a).
+func truncateKey(k string) (string, bool) {
+	if !strings.HasPrefix(k, "(") || !strings.HasSuffix(k, ")") {
+		return "", false
+	}
+	depth, cut := 0, -1
+	for i := 0; i < len(k); i++ {
+		switch k[i] {
+		case '(':
+			depth++
+		case ')':
+			depth--
+		case ',':
+			if depth == 1 {
+				cut = i
+			}
+		}
+	}
+	if cut < 0 {
+		return "", false
+	}
+	return k[:cut] + ")", true
+}
+
+// checkBatch: foreign is "" or [lenient:][incomplete:]<map>, <map> in results / statuses / errors: the
+// response mentions a never-requested key in that map - a foreign key value, or (incomplete) one of the
+// requested complex keys with its last field cut off - and the client is strict or lenient.
 func checkBatch(w *World, gen string, r *schema.Resource, m *schema.Method, keys []poolKey, assign []int, foreign string) (kind, detail string) {
+	lenient, incomplete := false, false
+	if strings.HasPrefix(foreign, "lenient:") {
+		lenient, foreign = true, strings.TrimPrefix(foreign, "lenient:")
+	}
+	if strings.HasPrefix(foreign, "incomplete:") {
+		incomplete, foreign = true, strings.TrimPrefix(foreign, "incomplete:")
+	}
+	if lenient {
+		lw := lenientWorlds[w.u]
+		if lw == nil {
+			c := DefaultConfig
+			c.Strict = false
+			lw = NewWorld(w.u, c)
+			lenientWorlds[w.u] = lw
+		}
+		w = lw
+	}
 	w.reset()
 	ownKey := ownKeyType(r)
 	call := &Call{Res: r, M: m}
@@ -213,7 +264,36 @@ func checkBatch(w *World, gen string, r *schema.Resource, m *schema.Method, keys
 		e.Err = &ErrV{Status: &st, Message: &msg}
 		reply.Batch = append(reply.Batch, e)
 	}
-	if foreign != "" {
+	if incomplete {
+		if ownKey.ComplexKey == nil {
+			return "skip", ""
+		}
+		mapName := foreign
+		w.transport.Respond = func(x *wire.Exchange) *http.Response {
+			var body map[string]map[string]json.RawMessage
+			if err := json.Unmarshal(x.Body, &body); err != nil {
+				report.Internal("batch response is not a JSON object of objects: %s", x.Body)
+			}
+			var ks []string
+			for k := range body[mapName] {
+				ks = append(ks, k)
+			}
+			sort.Strings(ks)
+			if len(ks) == 0 {
+				report.Internal("no entry in %s of %s", mapName, x.Body)
+			}
+			tk, ok := truncateKey(ks[0])
+			if !ok {
+				report.Internal("cannot truncate key %q", ks[0])
+			}
+			body[mapName][tk] = body[mapName][ks[0]]
+			delete(body[mapName], ks[0])
+			nb, _ := json.Marshal(body)
+			return &http.Response{StatusCode: x.Response.StatusCode, Status: x.Response.Status, Proto: "HTTP/1.1", ProtoMajor: 1, ProtoMinor: 1,
+				Header: x.Response.Header.Clone(), Body: io.NopCloser(bytes.NewReader(nb)), ContentLength: int64(len(nb))}
+		}
+		defer func() { w.transport.Respond = nil }()
+	} else if foreign != "" {
 		fk := otherKeyNotIn(ownKey, keys)
 		if fk == nil {
 			return "skip", "" // every value of the key type was requested: no foreign key exists
@@ -459,8 +539,17 @@ func partC16(a *hcli.Args, rep *report.Report, univName string, u *schema.Univer
 			}
 			rec(nil)
 			for _, f := range []string{"results", "statuses", "errors"} {
-				run(base, []int{0, 1, 2}[:len(base)], f)
-				run(base[:1], []int{7}, f)
+				for _, mode := range []string{"", "lenient:", "incomplete:", "lenient:incomplete:"} {
+					// (assignment 6 files every key under all three maps, so the map named has an entry to work on)
+					run(base, []int{6, 6, 6}[:len(base)], mode+f)
+					run(base[:1], []int{6}, mode+f)
+					if mode == "" || mode == "lenient:" {
+						run(base[:1], []int{7}, mode+f)
+					}
+					if mode == "" || mode == "lenient:" {
+						run(base, []int{0, 1, 2}[:len(base)], mode+f)
+					}
+				}
 			}
 		}
 	}
